@@ -595,6 +595,27 @@ end nan
 example : ¬ ((nan : XR ℚ) ≤ fin 1) ∧ ¬ ((fin 1 : XR ℚ) ≤ nan) ∧ (nan : XR ℚ) + fin 1 = nan :=
   ⟨xr_not_nan_le _, xr_not_le_nan _, xr_add_nan_left _⟩
 
+section reattach
+variable {K : Type} [Field K] [LinearOrder K] [IsStrictOrderedRing K] [HasSqrt K] {V : Type}
+
+/-- **Re-attachment discards the history.**  `PGM.__init__` calls `step_size.internal_init(self)`, which (d5a2ecf) resets the
+    memory of the policy object (`xprev/gradprev`, `Lbb1prev/Lbb2prev`, `T_k`, `Zrb`, `Z`; model `PolState.attach`).  Hence a
+    policy object that served another optimizer before — whatever its state `ps`, even one holding unusable or
+    non-finite remembered values — behaves exactly like a fresh one: every trajectory of the new solver is the one of
+    `PGMState.init`, and in particular `L` stays finite and positive without any assumption on the old state. -/
+theorem C16_reattach (env : Env V (XR K)) (pol : Policy (XR K)) (hpol : PolOK pol) (ps : PolState V (XR K))
+    (x0 : V) (L0 inf : XR K) (hL0 : PosFin L0) (accel : Bool) (k : Nat) (s : PGMState V (XR K))
+    (h : iterate (if accel then apgmStep env pol else pgmStep env pol) k (PGMState.attached ps x0 L0 inf) = some s) :
+    PGMState.attached ps x0 L0 inf = PGMState.init x0 L0 inf ∧ PosFin s.L := by
+  refine ⟨rfl, ?_⟩
+  have he : PGMState.attached ps x0 L0 inf = PGMState.init x0 L0 inf := rfl
+  rw [he] at h
+  cases accel with
+  | true => exact C16_positive_finite_apgm env pol hpol x0 L0 inf hL0 k s (by simpa using h)
+  | false => exact C16_positive_finite_pgm env pol hpol x0 L0 inf hL0 k s (by simpa using h)
+
+end reattach
+
 /-! ### non-vacuity: concrete instances over `ℚ` -/
 
 -- orthogonal differences, `Re⟨Δx,Δg⟩ = 0 < ‖Δg‖²`: the quotient is `+inf`, the previous value is kept
